@@ -584,3 +584,34 @@ pub fn ncpu() -> usize {
         .map(|n| n.get())
         .unwrap_or(4)
 }
+
+/// Evaluates one directly enumerated case (exhaustive loops) with the same panic guard as generated
+/// ones; keeps at most 3 failures per loop.
+pub fn eval_direct<T: Serialize, F: Fn(&T) -> Verdict>(
+    st: &mut Stats,
+    fails: &mut Vec<(String, String, Value)>,
+    c: &T,
+    oracle: F,
+) {
+    match guarded(&oracle, c) {
+        Ok(info) => {
+            let js = serde_json::to_value(c).unwrap_or(Value::Null);
+            let fp = fnv(js.to_string().as_bytes());
+            st.record(fp, &info, || js.clone());
+        }
+        Err((s, m)) => {
+            st.evaluations += 1;
+            if fails.len() < 3 && !fails.iter().any(|(s2, _, _)| *s2 == s) {
+                fails.push((s, m, serde_json::to_value(c).unwrap_or(Value::Null)));
+            }
+        }
+    }
+}
+
+pub fn finish_direct(rep: &mut Report, name: &str, st: Stats, fails: Vec<(String, String, Value)>, exhaustive: bool) {
+    rep.sub(name).merge(st);
+    rep.sub_exhaustive.insert(name.to_string(), exhaustive);
+    for (s, m, c) in fails {
+        rep.fail(name, &s, &m, c);
+    }
+}
